@@ -88,13 +88,11 @@ package host
 
 //@ func (*Stats).IncConnCount
 //@   prop C20
-//@   requires stats != nil
 //@   modifies atomu64
 //@   ensures @total-and-active-up atomu64[stats.connTotal] == uint64(old(atomu64[stats.connTotal]) + 1) && atomu64[stats.connActive] == uint64(old(atomu64[stats.connActive]) + 1) && atomu64[stats.connDestroy] == old(atomu64[stats.connDestroy])
 
 //@ func (*Stats).DecConnCount
 //@   prop C20
-//@   requires stats != nil
 //@   modifies atomu64
 //@   ensures @destroyed-up-active-down atomu64[stats.connDestroy] == uint64(old(atomu64[stats.connDestroy]) + 1) && atomu64[stats.connActive] == uint64(old(atomu64[stats.connActive]) - 1) && atomu64[stats.connTotal] == old(atomu64[stats.connTotal])
 
